@@ -157,6 +157,19 @@ func (a *remoteAuthorizer) Execute(ctx heimdall.Context, sub *subject.Subject) e
 
 	if a.ttl > 0 {
 		cacheKey = a.calculateCacheKey(sub, vals, payload)
+
+		// the url and the headers of the endpoint are templates, which can refer to the results of the
+		// previous pipeline steps. The response depends then on these as well.
+		if a.e.RefersTo("Outputs") {
+			outputs, _ := json.Marshal(ctx.Outputs())
+
+			digest := sha256.New()
+			digest.Write(stringx.ToBytes(cacheKey))
+			digest.Write(outputs)
+
+			cacheKey = hex.EncodeToString(digest.Sum(nil))
+		}
+
 		if entry, err := cch.Get(ctx.AppContext(), cacheKey); err == nil {
 			var ai authorizationInformation
 
